@@ -371,8 +371,13 @@ class SimDisk:
         """Canonical picture of the simulated file system (for whole-tree comparisons)."""
         from .common import short
 
-        return {"files": {k: short(bytes(v), 16) for k, v in sorted(dict.items(self.files))},
-                "symlinks": dict(sorted(self.symlinks.items())), "dirs": sorted(self.made_dirs)}
+        pre = self.cwd.rstrip("/") + "/"
+
+        def rel(p):
+            return p[len(pre):] if p.startswith(pre) else p
+
+        return {"files": {rel(k): short(bytes(v), 16) for k, v in sorted(dict.items(self.files))},
+                "symlinks": {rel(k): rel(v) for k, v in sorted(self.symlinks.items())}, "dirs": sorted(rel(d) for d in self.made_dirs)}
 
     def symlink(self, link, target):
         """Register `link` as a symbolic link to the directory or file `target` (the target need not exist)."""
